@@ -1,6 +1,7 @@
 package main
 
 import (
+	"strings"
 	"go/types"
 	"go/token"
 
@@ -19,6 +20,48 @@ const hotPkg = "pkg/hotreload"
 const hotPath = modPath + "/pkg/hotreload"
 
 func runC19(c *Ctx) {
+	c.rule("C19-R8", "CLS: the predicate by which setupRoutes tells a semantically invalid program (reject the edit, keep the running version) from an unsupported construct (fall back to the interpreter) classifies wrapped errors too: every func(error) bool of pkg/compiler that decides by the error's concrete type uses errors.As/errors.Is, not a type assertion on the parameter, because the compiler wraps errors of nested constructs with %w")
+	{
+		wraps := 0
+		for _, fn := range c.srcFuncs(compilerPkg) {
+			eachCall(fn, func(call ssa.CallInstruction) {
+				if callName(call) == "fmt.Errorf" {
+					if f, ok := constString(call.Common().Args[0]); ok && strings.Contains(f, "%w") {
+						wraps++
+					}
+				}
+			})
+		}
+		n := 0
+		for _, fn := range c.srcFuncs(compilerPkg) {
+			sig := fn.Signature
+			if fn.Parent() != nil || sig.Recv() != nil || sig.Params().Len() != 1 || sig.Results().Len() != 1 || !isErrorType(sig.Params().At(0).Type()) {
+				continue
+			}
+			if bt, ok := sig.Results().At(0).Type().Underlying().(*types.Basic); !ok || bt.Kind() != types.Bool {
+				continue
+			}
+			n++
+			asserts, unwraps := false, false
+			eachInstr(fn, func(_ *ssa.BasicBlock, _ int, ins ssa.Instruction) {
+				switch x := ins.(type) {
+				case *ssa.TypeAssert:
+					if x.X == ssa.Value(fn.Params[0]) {
+						asserts = true
+					}
+				case *ssa.Call:
+					if n := callName(x); n == "errors.As" || n == "errors.Is" {
+						unwraps = true
+					}
+				}
+			})
+			c.ob("C19-R8", fnKey(fn)+"#classifies-wrapped-errors", fn.Pos(), !asserts || unwraps || wraps == 0, "this predicate decides by a type assertion on the error it is given, while pkg/compiler wraps errors of nested constructs with %w ("+itoa(wraps)+" sites): a semantic error inside a loop body is not recognised, setupRoutes falls back to the interpreter instead of rejecting the edit, and under `glyph dev` the broken version replaces the running one")
+		}
+		c.Sites["C19-R8#error-predicates"] = n
+		if n < 1 {
+			c.undecided("C19-R8: no func(error) bool found in pkg/compiler")
+		}
+	}
 	c.rule("C19-R7", "MPT: in the file-watch loop of `glyph dev`, every write/create event of the watched file (re)arms a reload that runs after the event: from the event test's accepting edge every way back to the loop head passes time.AfterFunc / Timer.Reset. An event that is absorbed because a reload is 'already pending' can belong to an edit saved after that reload read the file - it would never take effect")
 	if wf := c.mustFn("C19-R7", glyphCmd, "hotReloadManager.watchForChanges"); wf != nil {
 		n := 0
